@@ -50,9 +50,25 @@ pub enum OeWl {
     TieredFlex,
     Merkle,
     TieredMerkle,
+    /// foreign whitelist contracts (harness mock, Config shaped for the variant's minter):
+    /// claims to be tiered and reports active stage id 4
+    MockStage4,
+    /// its HasMember query fails
+    MockNoMember,
+    /// claims to be tiered, stage 1 active, its Stage query fails
+    MockNoStage,
+    /// (wl-flex) its Member query fails
+    MockNoCount,
 }
 impl OeWl {
     pub fn from_u8(k: u8) -> OeWl {
+        match k {
+            6 => return OeWl::MockStage4,
+            7 => return OeWl::MockNoMember,
+            8 => return OeWl::MockNoStage,
+            9 => return OeWl::MockNoCount,
+            _ => {}
+        }
         match k % 6 {
             0 => OeWl::Plain,
             1 => OeWl::Tiered,
@@ -124,7 +140,17 @@ pub struct OeCfg {
     /// spare whitelists created with the world (before the initial balance snapshot), to be
     /// attached later by `SetWhitelist { spare }`
     pub spares: Vec<SpareWl>,
+    /// NFT metadata mode: false = OffChainMetadata (token_uri, sg721-base collection),
+    /// true = OnChainMetadata (extension, sg721-metadata-onchain collection)
+    #[serde(default)]
+    pub onchain: bool,
+    /// on-chain mode: the image URL of the extension as sent (None = the default, well-formed one;
+    /// Some("") = no image field at all)
+    #[serde(default)]
+    pub image: Option<String>,
 }
+pub const OE_TOKEN_URI: &str = "ipfs://bafybeigi3bwpvyvsmnbj46ra4hyffcxdeaj6ntfk5jpic5mx27x6ih2qvq/images/1.png";
+pub const OE_IMAGE: &str = "https://example.com/editions/one.png";
 #[derive(Clone, Debug, PartialEq, Eq, serde::Serialize, serde::Deserialize)]
 pub struct SpareWl {
     /// `OeWl::from_u8(kind)`
@@ -153,6 +179,8 @@ impl OeCfg {
             wl_stage_limit: None,
             wl_flex_count: 2,
             spares: vec![],
+            onchain: false,
+            image: None,
         }
     }
 }
@@ -229,6 +257,65 @@ mod mk {
     }
     pub fn selftest() {
         assert_eq!(hex::encode(blake3_short(b"")), "af1349b9f5f9a1a6a0404dea36dcc9499bcb25c9adc112b7cc9a93cae41f3262");
+    }
+}
+
+// ---------- a foreign whitelist contract ----------
+/// Anyone can name any contract as whitelist (SetWhitelist only asks for its Config).  This one
+/// answers the queries a minter issues with what it was instantiated with; `null` = the query fails.
+pub mod mockwl {
+    use cosmwasm_std::{Binary, Deps, DepsMut, Empty, Env, MessageInfo, Response, StdError, StdResult};
+    use serde::{Deserialize, Serialize};
+    #[derive(Serialize, Deserialize, Debug, Clone)]
+    pub struct Init {
+        /// cw2 contract name
+        pub name: String,
+        pub start: u64,
+        pub end: u64,
+        /// JSON text of the Config answer (is_active is computed from the window)
+        pub config: String,
+        pub has_member: Option<bool>,
+        pub member_count: Option<u32>,
+        pub stage_id: Option<u32>,
+        /// JSON text of the Stage answer
+        pub stage: Option<String>,
+    }
+    #[derive(Serialize, Deserialize, Debug)]
+    #[serde(rename_all = "snake_case")]
+    pub enum Query {
+        Config {},
+        HasMember { member: String, proof_hashes: Option<Vec<String>> },
+        Member { member: String },
+        ActiveStageId {},
+        Stage { stage_id: u32 },
+    }
+    fn instantiate(deps: DepsMut, _e: Env, _i: MessageInfo, msg: Init) -> StdResult<Response> {
+        cw2::set_contract_version(deps.storage, msg.name.clone(), "1.0.0")?;
+        deps.storage.set(b"init", &serde_json::to_vec(&msg).unwrap());
+        Ok(Response::new())
+    }
+    fn execute(_d: DepsMut, _e: Env, _i: MessageInfo, _m: Empty) -> StdResult<Response> {
+        Ok(Response::new())
+    }
+    fn query(deps: Deps, env: Env, msg: Query) -> StdResult<Binary> {
+        let init: Init = serde_json::from_slice(&deps.storage.get(b"init").unwrap()).unwrap();
+        let fail = || StdError::generic_err("no answer");
+        let text = match msg {
+            Query::Config {} => {
+                let mut v: serde_json::Value = serde_json::from_str(&init.config).unwrap();
+                let now = env.block.time.nanos();
+                v["is_active"] = serde_json::json!(init.start <= now && now < init.end);
+                v.to_string()
+            }
+            Query::HasMember { .. } => format!("{{\"has_member\":{}}}", init.has_member.ok_or_else(fail)?),
+            Query::Member { member } => format!("{{\"address\":\"{}\",\"mint_count\":{}}}", member, init.member_count.ok_or_else(fail)?),
+            Query::ActiveStageId {} => init.stage_id.ok_or_else(fail)?.to_string(),
+            Query::Stage { .. } => init.stage.ok_or_else(fail)?,
+        };
+        Ok(Binary::from(text.into_bytes()))
+    }
+    pub fn code() -> Box<dyn cw_multi_test::Contract<Empty>> {
+        Box::new(cw_multi_test::ContractWrapper::new(execute, instantiate, query))
     }
 }
 
@@ -320,6 +407,8 @@ pub struct OeWorld {
     pub wl_kind: OeWl,
     pub spare_whitelist: Option<Addr>,
     pub spares: Vec<Option<Addr>>,
+    /// id <-> text of token uris and (canonical JSON of) extensions
+    pub blobs: Ids,
     pub addrs: Ids,
     pub denoms: Ids,
     pub t0: u64,
@@ -367,6 +456,22 @@ impl OeWorld {
             }}})
     }
 
+    /// the nft_data of the creation request (what is SENT; the minter trims / normalises the URL)
+    pub fn nft_data_json(cfg: &OeCfg) -> Value {
+        if cfg.onchain {
+            let mut ext = json!({"image": cfg.image.clone().unwrap_or_else(|| OE_IMAGE.to_string()), "image_data": null,
+                "external_url": "https://example.com/editions", "description": "An open edition with on-chain metadata",
+                "name": "Edition One", "attributes": [{"display_type": null, "trait_type": "kind", "value": "open edition"}],
+                "background_color": null, "animation_url": null, "youtube_url": null});
+            if cfg.image.as_deref() == Some("") {
+                ext["image"] = Value::Null;
+            }
+            json!({"nft_data_type": "on_chain_metadata", "extension": ext, "token_uri": null})
+        } else {
+            json!({"nft_data_type": "off_chain_metadata", "extension": null, "token_uri": OE_TOKEN_URI})
+        }
+    }
+
     /// Build the world through the open-edition factory; Err(reason) if creation is rejected.
     pub fn new(cfg: OeCfg) -> Result<OeWorld, String> {
         mk::selftest();
@@ -384,7 +489,7 @@ impl OeWorld {
         addrs.id(DEV);
         let minter_code = app.store_code(v.code());
         let factory_code = app.store_code(chain::open_edition_factory());
-        let sg721_code = app.store_code(chain::sg721_base());
+        let sg721_base_code = app.store_code(chain::sg721_base());
         let mut wl_code = BTreeMap::new();
         wl_code.insert("plain", app.store_code(chain::whitelist()));
         wl_code.insert("tiered", app.store_code(chain::tiered_whitelist()));
@@ -392,11 +497,14 @@ impl OeWorld {
         wl_code.insert("tiered-flex", app.store_code(chain::tiered_whitelist_flex()));
         wl_code.insert("merkle", app.store_code(chain::whitelist_merkletree()));
         wl_code.insert("tiered-merkle", app.store_code(chain::tiered_whitelist_merkletree()));
+        let sg721_onchain_code = app.store_code(chain::sg721_metadata_onchain());
+        wl_code.insert("mock", app.store_code(mockwl::code()));
+        let sg721_code = if cfg.onchain { sg721_onchain_code } else { sg721_base_code };
         let factory = app
             .instantiate_contract(
                 factory_code,
                 Addr::unchecked(CREATOR),
-                &Self::fp_json(&cfg.fp, minter_code, &[sg721_code]),
+                &Self::fp_json(&cfg.fp, minter_code, &[sg721_base_code, sg721_onchain_code]),
                 &[],
                 "factory",
                 None,
@@ -413,6 +521,7 @@ impl OeWorld {
             wl_kind: cfg.wl,
             spare_whitelist: None,
             spares: vec![],
+            blobs: Ids::with_fixed(&[], 1),
             addrs,
             denoms,
             t0,
@@ -433,8 +542,7 @@ impl OeWorld {
         }
         let create = json!({"create_minter": {
             "init_msg": {
-                "nft_data": {"nft_data_type": "off_chain_metadata", "extension": null,
-                             "token_uri": "ipfs://bafybeigi3bwpvyvsmnbj46ra4hyffcxdeaj6ntfk5jpic5mx27x6ih2qvq/images/1.png"},
+                "nft_data": Self::nft_data_json(&cfg),
                 "payment_address": if cfg.payment_address { Some(PAYADDR) } else { None },
                 "start_time": ts(t0 + cfg.start_in_secs * S),
                 "end_time": cfg.end_in_secs.map(|e| ts(t0 + e * S)),
@@ -542,11 +650,39 @@ impl OeWorld {
                            "merkle_tree_uris": null, "admins": [CREATOR], "admins_mutable": true}),
                 )
             }
+            OeWl::MockStage4 | OeWl::MockNoMember | OeWl::MockNoStage | OeWl::MockNoCount => {
+                let (st, en) = (now + windows[0].0 * S, now + windows[0].1 * S);
+                let mut config = json!({"num_members": 2, "member_limit": 1000, "start_time": ts(st), "end_time": ts(en),
+                    "mint_price": coinv(price, denom), "is_active": false});
+                if self.v.flex {
+                    config["whale_cap"] = Value::Null;
+                } else {
+                    config["per_address_limit"] = json!(limit);
+                }
+                let tiered = matches!(kind, OeWl::MockStage4 | OeWl::MockNoStage);
+                let mut stage = json!({"name": "stage", "start_time": ts(st), "end_time": ts(en), "mint_price": coinv(price, denom), "mint_count_limit": null});
+                if !self.v.flex {
+                    stage["per_address_limit"] = json!(limit);
+                }
+                let init = mockwl::Init {
+                    name: if tiered { "crates.io:foreign-tiered-whitelist".into() } else { "crates.io:foreign-whitelist".into() },
+                    start: st,
+                    end: en,
+                    config: config.to_string(),
+                    has_member: if kind == OeWl::MockNoMember { None } else { Some(true) },
+                    member_count: if kind == OeWl::MockNoCount { None } else { Some(5) },
+                    stage_id: Some(if kind == OeWl::MockStage4 { 4 } else { 1 }),
+                    stage: if kind == OeWl::MockNoStage { None } else { Some(json!({"stage": stage}).to_string()) },
+                };
+                fee = 0;
+                ("mock", serde_json::to_value(&init).unwrap())
+            }
             OeWl::None => return Err("no whitelist".into()),
         };
         let code_id = self.wl_code[code];
         let r = crate::util::catch(|| {
-            self.app.instantiate_contract(code_id, Addr::unchecked(CREATOR), &msg, &[coin(fee, NATIVE)], "wl", None)
+            let funds = if fee > 0 { vec![coin(fee, NATIVE)] } else { vec![] };
+            self.app.instantiate_contract(code_id, Addr::unchecked(CREATOR), &msg, &funds, "wl", None)
         });
         match r {
             Ok(Ok(a)) => {
@@ -1090,10 +1226,83 @@ impl OeWorld {
         StepOut { coq: Some(coq), ok, err, minted, is_minter_step: true }
     }
 
-    /// A whole case as a Coq `oecase` term.
+    fn blob_id(&mut self, v: &Value) -> Option<u64> {
+        match v {
+            Value::Null => None,
+            Value::String(s) => Some(self.blobs.id(s)),
+            other => Some(self.blobs.id(&serde_json::to_string(other).unwrap())),
+        }
+    }
+    /// the metadata configuration as the minter reports it (Config.nft_data): `mkNft onchain uri ext`
+    pub fn nft_cfg_coq(&mut self) -> String {
+        let c = self.minter_config();
+        let nd = c["nft_data"].clone();
+        let onchain = nd["nft_data_type"].as_str() == Some("on_chain_metadata");
+        let uri = self.blob_id(&nd["token_uri"]);
+        let ext = self.blob_id(&nd["extension"]);
+        format!("(mkNft {} {} {})", coq_bool(onchain), coq_opt_n(uri), coq_opt_n(ext))
+    }
+    /// what the collection stores for each token it holds: (id, owner, token_uri, extension), ascending id
+    pub fn stored_tokens(&self) -> Vec<(u64, String, Value, Value)> {
+        let mut ids: Vec<u64> = self.all_tokens().iter().map(|t| t.parse().unwrap_or(0)).collect();
+        ids.sort();
+        ids.iter()
+            .map(|id| {
+                let v = self
+                    .app
+                    .wrap()
+                    .query_wasm_smart::<Value>(self.collection.clone(), &json!({"all_nft_info": {"token_id": id.to_string(), "include_expired": null}}))
+                    .unwrap();
+                (*id, v["access"]["owner"].as_str().unwrap_or("").to_string(), v["info"]["token_uri"].clone(), v["info"]["extension"].clone())
+            })
+            .collect()
+    }
+    pub fn stored_tokens_coq(&mut self) -> String {
+        let toks = self.stored_tokens();
+        let items: Vec<String> = toks
+            .iter()
+            .map(|(id, owner, uri, ext)| {
+                let o = self.addrs.id(owner);
+                let u = self.blob_id(uri);
+                let e = self.blob_id(ext);
+                format!("mkOMint {} {} {} {}", id, o, coq_opt_n(u), coq_opt_n(e))
+            })
+            .collect();
+        coq_list(&items)
+    }
+    /// Property-text monitor shared by the sale properties: every token the collection holds
+    /// carries the metadata the edition was CREATED with (the request, with the URL trimmed):
+    /// off-chain mode: token_uri = the configured uri and no extension; on-chain mode: no
+    /// token_uri and extension = the configured extension.  Returns descriptions of violations.
+    pub fn metadata_violations(&self) -> Vec<String> {
+        let sent = Self::nft_data_json(&self.cfg);
+        let mut out = vec![];
+        for (id, _owner, uri, ext) in self.stored_tokens() {
+            if self.cfg.onchain {
+                let mut want = sent["extension"].clone();
+                if let Some(img) = want["image"].as_str() {
+                    want["image"] = json!(img.trim());
+                }
+                if !uri.is_null() || ext != want {
+                    out.push(format!("{}: token {} of the on-chain-metadata collection stores uri {} extension {}, configured extension {}", self.v.name, id, uri, ext, want));
+                }
+            } else {
+                let want = sent["token_uri"].as_str().unwrap().trim().to_string();
+                if uri.as_str() != Some(want.as_str()) || !ext.is_null() {
+                    out.push(format!("{}: token {} stores uri {} extension {}, configured token_uri {}", self.v.name, id, uri, ext, want));
+                }
+            }
+        }
+        out
+    }
+
+    /// A whole case as a Coq `oecase` term (OECaseM: with the metadata configuration and the
+    /// tokens the collection stores at the end).
     pub fn case_coq(&mut self, init: &str, init_bal: &str, steps: &[String]) -> String {
         let accts: Vec<String> = self.count_accounts().iter().map(|a| self.addrs.id(a).to_string()).collect();
-        format!("(OECase {} {} {} {} {})", self.v.coq(), init, init_bal, coq_list(&accts), coq_list(steps))
+        let nft = self.nft_cfg_coq();
+        let stored = self.stored_tokens_coq();
+        format!("(OECaseM {} {} {} {} {} {} {})", nft, self.v.coq(), init, init_bal, coq_list(&accts), coq_list(steps), stored)
     }
 }
 
